@@ -36,6 +36,9 @@ CLAIMS = {
  "C17": dict(level="proof", ref="DESIGN.md 5 C17",
    text="Coq theorems: the exact five-way conflict rule (identical item accepted, lower seq NotMostRecent, different item without cas ConflictRisk, cas = in-flight seq supersedes, other cas CasFailed); a 301/302 tally reaching floor(n/2)+1 of the contacted nodes ends a mutable put with CasFailed/NotMostRecent immediately and whatever the arrival order; such errors never arise for immutable/announce puts. Tied to the code by placing the second call at each stage of the first call's lifetime on a real node and by scripting 301/302/ack splits around the majority threshold.",
    note="Trusted as C08. Placement granularity is per stage (lookup / store phase / completed), not per loop iteration."),
+ "C09": dict(level="proof", ref="DESIGN.md 5 C09",
+   text="Coq theorems over the in-flight table and is_expected_response: a message is attributed to an outstanding request iff it carries its transaction id and comes from the address the request was sent to (port exact, IP exact unless the destination was 0.0.0.0); it is consumed at most once; a message that is not attributed leaves the table unchanged, so the genuine reply and the replies to all other requests are still accepted. Tied to the code by injecting responses and errors with right/guessed/unknown ids from the right address, a wrong port and a wrong IP around the genuine reply of a real lookup, and observing their effects (marker nodes contacted, address votes).",
+   note="Trusted: Coq kernel; effects are the observation (the table itself is not dumped). Reading: a late reply to a not-yet-compacted entry is accepted by design (RTT learning); transaction-id wrap-around after 2^32 requests is outside the theorems' hypothesis of distinct ids."),
 }
 
 TECH = "Coq proof over hand-written Gallina model + differential correspondence (vm_compute) against the Rust implementation"
